@@ -2,6 +2,7 @@ package main
 
 import (
 	"fmt"
+	"regexp"
 	"strings"
 
 	"golang.org/x/tools/go/ssa"
@@ -21,8 +22,12 @@ func govReadsAreFresh(r *Run, rule string) {
 		}
 		for i, ret := range Returns(f) {
 			t := P.TermAt(ret.Results[0], ret).String()
-			want := "out:res←(types.Subspace).Get(param:k.paramstore, param:ctx, global:x/gov/types." + w.key + ", addr:res)"
-			r.Check(t == want, rule, fmt.Sprintf("%s/returns-store-read#%d", w.fn, i), P.InstrPos(ret), t, w.fn+" returns "+t+" ; required the value decoded from the store in this call: "+want+" (a cached copy goes stale when the parameter is changed through governance)")
+			want := "out:<T>←(types.Subspace).Get(param:k.paramstore, param:ctx, global:x/gov/types." + w.key + ", addr:<T>)"
+			okT := false
+			if m := regexp.MustCompile(`^out:([^←]+)←\(types\.Subspace\)\.Get\(param:k\.paramstore, param:ctx, global:x/gov/types\.` + w.key + `, addr:([^)]+)\)$`).FindStringSubmatch(t); m != nil && m[1] == m[2] {
+				okT = true
+			}
+			r.Check(okT, rule, fmt.Sprintf("%s/returns-store-read#%d", w.fn, i), P.InstrPos(ret), t, w.fn+" returns "+t+" ; required the value decoded from the store in this call: "+want+" (a cached copy goes stale when the parameter is changed through governance)")
 		}
 		for _, c := range CallsIn(f, "(types.Subspace).Get") {
 			r.Check(len(P.Guards(c, 0)) == 0, rule, w.fn+"/reads-unconditionally", P.InstrPos(c), "unconditional store read", w.fn+" reads the store only under "+strings.Join(atomStrings(P.Guards(c, 0)), " ; "))
